@@ -373,7 +373,7 @@ func genScenario(rnd *hx.Rand, r *hx.Run) *scenario {
 	default:
 		o := optSpec{kind: "fs"}
 		for _, f := range given {
-			o.pairs = append(o.pairs, [2]int{f + 1, f})
+			o.pairs = append(o.pairs, [2]int{genFacName(f), f})
 		}
 		m.opts = append(m.opts, o)
 	}
@@ -389,7 +389,7 @@ func genScenario(rnd *hx.Rand, r *hx.Run) *scenario {
 		default:
 			for _, f := range given {
 				if rnd.Chance(2, 3) {
-					nm := f + 1
+					nm := genFacName(f)
 					if useRegistry {
 						nm = 1001 + rnd.Intn(6)
 					}
@@ -408,12 +408,15 @@ func genScenario(rnd *hx.Rand, r *hx.Run) *scenario {
 	}
 	if oot >= 0 {
 		o := optSpec{kind: "oot", list: append([]int{}, sc.facs[oot].members...)}
-		if len(o.list) > 0 && rnd.Chance(1, 3) {
-			// a second out-of-tree updater with a name already used: ignored by WithOutOfTree
+		if len(o.list) > 0 && rnd.Chance(1, 2) {
+			// a second out-of-tree updater with a name already used, anywhere after the first:
+			// WithOutOfTree ignores it and goes on with the rest of the list
 			i := len(sc.scripts)
-			d := newScript(i, sc.scripts[o.list[0]].name, 'p')
+			k := rnd.Intn(len(o.list))
+			d := newScript(i, sc.scripts[o.list[k]].name, 'p')
 			sc.scripts = append(sc.scripts, d)
-			o.list = append(o.list, i)
+			at := k + 1 + rnd.Intn(len(o.list)-k)
+			o.list = append(o.list[:at], append([]int{i}, o.list[at:]...)...)
 			r.Count("gen:out-of-tree-duplicate")
 		}
 		rest = append(rest, o)
@@ -429,7 +432,7 @@ func genScenario(rnd *hx.Rand, r *hx.Run) *scenario {
 		}
 		for f := range sc.facs {
 			if rnd.Chance(1, 2) {
-				o.cfgs = append(o.cfgs, cfgEnt{fac: true, name: f + 1, id: 1 + rnd.Intn(9)})
+				o.cfgs = append(o.cfgs, cfgEnt{fac: true, name: genFacName(f), id: 1 + rnd.Intn(9)})
 			}
 		}
 		// the Go map keeps one entry per key
@@ -606,6 +609,17 @@ func genScenario(rnd *hx.Rand, r *hx.Run) *scenario {
 	return sc
 }
 
+// genFacName: the name a generated scenario gives its f-th factory. Some names
+// are prefixes of others ("f1", "f11", "f111"; "f2", "f21"): WithEnabled
+// compares whole names.
+func genFacName(f int) int {
+	names := []int{1, 11, 2, 12, 111, 3, 21, 13}
+	if f < len(names) {
+		return names[f]
+	}
+	return 30 + f
+}
+
 func bucket(n int) int {
 	for _, b := range []int{0, 1, 2, 4, 8, 16, 32, 64, 128} {
 		if n <= b {
@@ -743,6 +757,10 @@ func Run(cfg hx.Config) error {
 		return err
 	}
 	r.Notes["corpus"] = len(names)
+	if !preflight(r) {
+		// the scenarios would crash inside goroutines the manager starts
+		return r.Close()
+	}
 	for _, sc := range append(corpus, fixedScenarios()...) {
 		sc.bindRegistry(registeredNames())
 		if !runScenario(r, cfg.Seed, idx, sc) {
